@@ -83,5 +83,15 @@ Definition sweep_imul : list (Z * stmt) :=
 Lemma sweep_imul_ok : forallb ok013 sweep_imul = true.
 Proof. vm_compute. reflexivity. Qed.
 
+(* shifts, NOT (registers and typed memory) and PUSH/POP of 16-bit memory operands *)
+Definition sweep_shift : list (Z * stmt) :=
+  flat_map (fun m => flat_map (fun op => flat_map (fun r => map (fun v => (m, SMnem op [ident r; num v])) [1; 2; 3; 7; 15; 31]) (r8 ++ r16 ++ r32)) ["SHL"; "SHR"; "SAR"]) modes
+  ++ flat_map (fun m => map (fun r => (m, SMnem "NOT" [ident r])) (r8 ++ r16 ++ r32)) modes
+  ++ flat_map (fun m => flat_map (fun op => flat_map (fun dt => map (fun v => (m, SMnem op [mem_of dt "BX" "" 0 4; num v])) [1; 4; 7]) [DtByte; DtWord; DtDword]) ["SHL"; "SHR"; "SAR"]) modes
+  ++ flat_map (fun m => map (fun dt => (m, SMnem "NOT" [mem_of dt "EBX" "ESI" 4 8])) [DtByte; DtWord; DtDword]) modes
+  ++ flat_map (fun op => flat_map (fun '(b, i, _, _) => map (fun d => (16, SMnem op [mem_of DtWord b i 0 d])) [0; 4; -128; 4660]) shapes16) ["PUSH"; "POP"].
+Lemma sweep_shift_ok : forallb ok013 sweep_shift = true.
+Proof. vm_compute. reflexivity. Qed.
+
 Lemma sweep_sizes_ok : forallb ok03 (sweep_rr ++ sweep_ri ++ sweep_sreg ++ sweep_stack ++ sweep_push_imm ++ sweep_port) = true.
 Proof. vm_compute. reflexivity. Qed.
